@@ -111,10 +111,56 @@ def published_constants_ok():
     return bad
 
 
+# published parameter sets that properties name explicitly (GDA2020 Technical Manual v1.2: Table 3.2 / section 3.3 and the
+# National Measurement determination 2017): field -> decimal string
+PUBLISHED_TRANS = {
+    'gda94_to_gda2020': {'from_datum': 'GDA94', 'to_datum': 'GDA2020', 'ref_epoch': 0,
+                         'tx': '0.06155', 'ty': '-0.01087', 'tz': '-0.04019', 'sc': '-0.009994',
+                         'rx': '-0.0394924', 'ry': '-0.0327221', 'rz': '-0.0328979',
+                         'd_tx': '0', 'd_ty': '0', 'd_tz': '0', 'd_sc': '0', 'd_rx': '0', 'd_ry': '0', 'd_rz': '0',
+                         'sd': {'sd_tx': '0.0007', 'sd_ty': '0.0006', 'sd_tz': '0.0007', 'sd_sc': '0.00010',
+                                'sd_rx': '0.000011', 'sd_ry': '0.000010', 'sd_rz': '0.000011'}},
+    'itrf2014_to_gda2020': {'from_datum': 'ITRF2014', 'to_datum': 'GDA2020', 'ref_epoch': (2020, 1, 1),
+                            'tx': '0', 'ty': '0', 'tz': '0', 'sc': '0', 'rx': '0', 'ry': '0', 'rz': '0',
+                            'd_tx': '0', 'd_ty': '0', 'd_tz': '0', 'd_sc': '0',
+                            'd_rx': '0.00150379', 'd_ry': '0.00118346', 'd_rz': '0.00120716',
+                            'sd': {'sd_d_rx': '0.00000417', 'sd_d_ry': '0.00000401', 'sd_d_rz': '0.00000370'}},
+}
+PUBLISHED_TRANS['atrf2014_to_gda2020'] = dict(PUBLISHED_TRANS['itrf2014_to_gda2020'], from_datum='ATRF2014')
+
+
+def published_trans_ok(names):
+    """(set, field, library value, published value) for every field of the named shipped sets that differs"""
+    import datetime
+    from decimal import Decimal
+    bad = []
+    for n in names:
+        pub, t = PUBLISHED_TRANS[n], getattr(gc, n)
+        for f, want in pub.items():
+            if f == 'sd':
+                for g, w in want.items():
+                    got = getattr(t.tf_sd, g, None)
+                    if got is None or Decimal(repr(float(got))) != Decimal(w):
+                        bad.append((n, g, got, w))
+            elif f == 'ref_epoch':
+                exp = datetime.date(*want) if want else 0
+                if t.ref_epoch != exp:
+                    bad.append((n, f, str(t.ref_epoch), str(exp)))
+            elif f in ('from_datum', 'to_datum'):
+                if getattr(t, f) != want:
+                    bad.append((n, f, getattr(t, f), want))
+            else:
+                got = getattr(t, f)
+                if Decimal(repr(float(got))) != Decimal(want):
+                    bad.append((n, f, got, want))
+    return bad
+
+
 # ---- angle input types ----------------------------------------------------------------------
-INTYPES = ['float', 'deca', 'hpa', 'gona', 'dms', 'ddm', 'dmss', 'ddms', 'dmsa', 'ddma']
+INTYPES = ['float', 'deca', 'hpa', 'gona', 'dms', 'ddm', 'dmss', 'ddms', 'dmsa', 'ddma', 'dmsr', 'ddmr']
 # dmss / ddms: the object rebuilt from its own text form (DMSAngle(str(o)): tiny seconds print in exponent notation);
-# dmsa / ddma: an object whose public fields were assigned after construction
+# dmsa / ddma: an object whose public fields were assigned after construction;
+# dmsr / ddmr: an object RETURNED BY THE LIBRARY (dec2dms / dec2ddm of another angle, used once) whose fields were then assigned
 # other legal forms of a float: numpy float64 scalars (a float subclass) as produced by array indexing / numpy arithmetic
 NUMFORMS = ['np64', 'np0d', 'np32']
 
@@ -133,7 +179,8 @@ def denote(obj):
         v = F(int(obj.degree)) + F(float(obj.minute)) / 60
         return float(v if obj.positive else -v)
     if isinstance(obj, ga.HPAngle):
-        sg, d, m, s, valid = om.hp_fields(float(obj.hp_angle))
+        x = float(obj.hp_angle)
+        sg, d, m, s, valid = om.hp_fields(x, 13 if abs(x) < 512 else 12)      # from 512 deg on a float64 has no 13th decimal
         return float(sg * (F(d) + F(m, 60) + s / 3600))
     if isinstance(obj, ga.GONAngle):
         return float(F(float(obj.gon_angle)) * 9 / 10)
@@ -182,6 +229,18 @@ def _as_type(dec, kind):
     if kind == 'ddma':
         src = ga.dec2ddm(dec)
         o = ga.DDMAngle(12, 34.56789, positive=not src.positive)
+        o.degree, o.minute, o.positive = src.degree, src.minute, src.positive
+        return o
+    if kind == 'dmsr':
+        src = ga.dec2dms(dec)
+        o = ga.dec2dms(-12.58244138888889 if src.positive else 12.58244138888889)
+        o.dec(), o.hp(), str(o)
+        o.degree, o.minute, o.second, o.positive = src.degree, src.minute, src.second, src.positive
+        return o
+    if kind == 'ddmr':
+        src = ga.dec2ddm(dec)
+        o = ga.dec2ddm(-12.58244138888889 if src.positive else 12.58244138888889)
+        o.dec(), o.hp(), str(o)
         o.degree, o.minute, o.positive = src.degree, src.minute, src.positive
         return o
     if kind == 'np64':
@@ -237,10 +296,56 @@ def exact_forms(v, f32=False):
     return out
 
 
+def flat(x):
+    """numeric content of a result, independent of the Python / numpy types that carry it"""
+    import numpy as np
+    if isinstance(x, (bool, str, bytes)) or x is None:
+        return x
+    if isinstance(x, (int, float, np.integer, np.floating)):
+        return float(x).hex()
+    if isinstance(x, np.ndarray):
+        return ('nd', x.shape, tuple(float(v).hex() for v in np.asarray(x, dtype=float).ravel()))
+    if isinstance(x, (tuple, list)):
+        return tuple(flat(v) for v in x)
+    if isinstance(x, dict):
+        return tuple(sorted((str(k), flat(v)) for k, v in x.items()))
+    if hasattr(x, '__dict__'):
+        return (type(x).__name__,) + tuple(sorted((k, flat(v)) for k, v in vars(x).items()))
+    return repr(x)
+
+
+def scalar_forms_agree(rec, call, args, idxs, base, site, case, coords, what, f32=False):
+    """call(*args) must return the same numbers (flat) as base when the arguments at positions idxs are given in any other
+    exact numeric spelling (exact_forms): one argument at a time, and all of them together in the same spelling"""
+    fb = flat(base)
+    forms = {i: dict(exact_forms(args[i], f32)) for i in idxs if isinstance(args[i], (int, float)) and not isinstance(args[i], bool)}
+    names = []
+    for d in forms.values():
+        for nm in d:
+            if nm not in names:
+                names.append(nm)
+    for nm in names:
+        trials = [[(i, d[nm])] for i, d in forms.items() if nm in d]
+        both = [(i, d[nm]) for i, d in forms.items() if nm in d]
+        if len(both) > 1:
+            trials.append(both)
+        for repl in trials:
+            a2 = list(args)
+            for i, v in repl:
+                a2[i] = v
+            st, r = rec.call(call, *a2)
+            if st != 'ok' or flat(r) != fb:
+                rec.fail('%s answers differently when argument(s) %s are given as %s' % (what, [i for i, _ in repl], nm),
+                         site=site + ':numeric-form', observed=r, expected=base, case=case,
+                         coords=dict(coords, form=nm, positions=[i for i, _ in repl]))
+                return False
+    return True
+
+
 def matrix_forms(m):
     """the same matrix as the array objects a caller may legitimately hold: (name, array) pairs.
     read-only (np.broadcast_to / memory-mapped / flags.writeable = False), Fortran order, a strided window into a larger
-    array, a transposed view of the transpose, an np.matrix, and integer / float32 dtypes where they hold the values exactly"""
+    array, a transposed view of the transpose, and integer / float32 dtypes where they hold the values exactly"""
     import numpy as np
     a = np.array(m, dtype=float)
     out = []
@@ -253,13 +358,31 @@ def matrix_forms(m):
     win[...] = a
     out.append(('window', win))
     out.append(('tview', np.ascontiguousarray(a.T).T))
-    if a.ndim == 2:
-        out.append(('npmatrix', np.matrix(a)))
+    # (np.matrix is not used: the documented input is a numpy array, and np.matrix changes the meaning of indexing and *)
     if np.all(a == np.round(a)) and np.all(np.abs(a) < 2 ** 31):
         out.append(('int64', a.astype(np.int64)))
     if np.all(a.astype(np.float32).astype(float) == a):
         out.append(('float32', a.astype(np.float32)))
     return out
+
+
+def forms_agree(rec, call, m, base, site, case, coords, what, skip=()):
+    """call(matrix) must not modify the matrix and must return the same as for the plain float64 array (base), whatever
+    array object holds the values (see matrix_forms)"""
+    import numpy as np
+    from gpmc import snapshot as snp
+    cb = snp.canon(base)
+    for nm, vf in matrix_forms(m):
+        if nm in skip:
+            continue
+        bf = np.array(vf).tobytes()
+        st, r = rec.call(call, vf)
+        if np.array(vf).tobytes() != bf:
+            rec.fail('%s modified the matrix supplied by the caller (%s array)' % (what, nm), site=site + ':argument',
+                     observed=np.array(vf), expected=np.array(m).tolist(), case=case, coords=dict(coords, form=nm))
+        if st != 'ok' or snp.canon(r) != cb:
+            rec.fail('%s answers differently when the same matrix is held in a %s array' % (what, nm), site=site + ':matrix-form',
+                     observed=r, expected=base, case=case, coords=dict(coords, form=nm))
 
 
 # ---- lattice helpers ------------------------------------------------------------------------
